@@ -371,3 +371,68 @@ func Verif_C01_restarted_node_followed() {
 	verifapi.Cover("second-update-of-new-run")
 	verifapi.Assert("restarted-node-later-updates-followed", verifapi.All(ok, hop == "B", s.routingPathCosts["C"] == 2))
 }
+
+// Verif_C01_link_lost_at_any_stage: node A knows X through B (cost 2 or more). A direct link A-X (arbitrary
+// cost) comes up through the real protocol loop and is lost again at one of three stages: right after A
+// accepted the handshake, after X confirmed the link with an update listing A, or after a further update.
+// Each time the pending flood/rebuild requests are served (as the tick runners do). At the end A does not
+// count X among its connections and routes to X via B at the cost of that path - whatever the stage.
+func Verif_C01_link_lost_at_any_stage() {
+	verifapi.SelectFork(false)
+	n := verifNetceptor("A")
+	s := n.s
+	n.verifConn("B", 1)
+	s.knownConnectionCosts["A"] = map[string]float64{"B": 1}
+	s.knownConnectionCosts["B"] = map[string]float64{"A": 1, "X": 1}
+	s.knownConnectionCosts["X"] = map[string]float64{"B": 1}
+	s.knownNodeInfo["B"] = &nodeInfo{Epoch: 1, Sequence: 1}
+	s.knownNodeInfo["X"] = &nodeInfo{Epoch: 5, Sequence: 0}
+	serve := func() {
+		for i := 0; i < 4; i++ {
+			verifapi.Quiesce()
+			if len(*n.floodReqs) > 0 {
+				*n.floodReqs = nil
+				s.sendRoutingUpdate(0)
+			}
+			if len(*n.tableReqs) > 0 {
+				*n.tableReqs = nil
+				s.updateRoutingTable()
+			}
+		}
+	}
+	s.updateRoutingTable()
+	serve()
+	verifapi.Assert("x-first-reached-through-b", verifapi.All(s.routingTable["X"] == "B", s.routingPathCosts["X"] == 2))
+	cost := verifapi.Float()
+	verifapi.Assume(verifapi.All(cost > 0, cost < 2))
+	stage := verifapi.Choose(3)
+	xUpdate := func(id string, seq uint64) []byte {
+		ru := &routingUpdate{NodeID: "X", UpdateID: id, UpdateEpoch: 5, UpdateSequence: seq,
+			Connections: map[string]float64{"A": cost, "B": 1}, ForwardingNode: "X"}
+		return append([]byte{MsgTypeRoute}, verifapi.JSON(ru)...)
+	}
+	script := [][]byte{xUpdate("h", 1)}
+	if stage >= 1 {
+		script = append(script, xUpdate("u2", 2))
+	}
+	if stage >= 2 {
+		script = append(script, xUpdate("u3", 3))
+	}
+	r := verifStartProtocol(n, script, &BackendInfo{connectionCost: cost})
+	serve()
+	verifapi.Cover("direct-link-up")
+	_, up := s.connections["X"]
+	verifapi.Assert("direct-link-established", up)
+	verifapi.Assert("direct-link-used-while-it-is-cheaper", verifapi.All(s.routingTable["X"] == "X", s.routingPathCosts["X"] == cost))
+	close(r.sess.gate) // the session ends: the link is lost
+	serve()
+	// X's own last word (relayed by B): it no longer lists A
+	s.handleRoutingUpdate(&routingUpdate{NodeID: "X", UpdateID: "after", UpdateEpoch: 5, UpdateSequence: 9,
+		Connections: map[string]float64{"B": 1}, ForwardingNode: "B"}, "B")
+	serve()
+	verifapi.Cover("direct-link-lost")
+	_, still := s.connections["X"]
+	verifapi.Assert("lost-link-is-no-connection", !still)
+	verifapi.Assert("route-falls-back-to-the-remaining-path", verifapi.All(s.routingTable["X"] == "B", s.routingPathCosts["X"] == 2))
+	verifapi.Assert("no-lock-left-held", verifapi.HeldLocks() == 0)
+}
